@@ -644,6 +644,10 @@ func CountDocs(maxN int) [][]byte {
 			[]byte("[^1]: one\n\n"+rep(n, func(i int) string { return fmt.Sprintf("p%d[^1]\n\n", i) })),
 			[]byte(rep(n, func(i int) string { return "[r] ![r][] [t][R] " })+"\n\n[r]: /u 't'\n"),
 			[]byte(rep(n, func(i int) string { return "# same\n\n" })),
+			// names of every length n: an HTML tag name (mixed case, as a block start, a closing tag and inline), an attribute name,
+			// an info string word, a reference label, an autolink scheme
+			[]byte("<"+strings.Repeat("Ab-", n)[:n]+">\n\nx <"+strings.Repeat("Cd", n)[:n]+" k=\"v\"> y </"+strings.Repeat("EF", n)[:n]+">\n\n</"+strings.Repeat("Gh", n)[:n]+">\n"),
+			[]byte("# t {"+strings.Repeat("Da-", n)[:n]+"x=v data-"+strings.Repeat("n", n)+"=w}\n\n```"+strings.Repeat("Go", n)[:n]+" rest\nc\n```\n\n["+strings.Repeat("Lb", n)[:n]+"]\n\n["+strings.Repeat("lB", n)[:n]+"]: /u\n\n<"+strings.Repeat("sc", n)[:n]+":x>\n"),
 			[]byte(rep(n, func(i int) string { return fmt.Sprintf("same\n%s\n\n", []string{"===", "---"}[i%2]) })),
 		)
 	}
